@@ -329,6 +329,8 @@ class Ctx:
         self.decisions = []
         self.alts = []
         self.pc = []
+        self.pc_assumed = []      # the part of pc that does not come from obligations (used for the reachability guard)
+        self._in_oblige = False
         self.obligations = []     # dicts: name, pc(list), goal, meta
         self.effects = []         # (kind, data...)
         self.counters = {}
@@ -373,7 +375,7 @@ class Ctx:
         for k, (vs, body, label) in enumerate(getattr(self, 'schemas', [])):
             pools = [[t for t in terms if t.sort() == v.sort()] for v in vs]
             for combo in itertools.product(*pools):
-                key = (k,) + tuple(t.get_id() for t in combo)
+                key = (k,) + tuple(t.sexpr() for t in combo)      # (ids of dead ASTs are reused by z3: never key on get_id)
                 if key in seen:
                     continue
                 seen.add(key)
@@ -391,6 +393,8 @@ class Ctx:
         if z3.is_false(f):
             raise PathAbort()
         self.pc.append(f)
+        if not self._in_oblige:
+            self.pc_assumed.append(f)
         self.solver.add(f)
 
     def feasible(self, f=None):
@@ -453,11 +457,14 @@ class Ctx:
         if goal is False:
             goal = z3.BoolVal(False)
         self.obligations.append({'name': name, 'pc': list(self.pc), 'goal': goal, 'meta': meta})
+        self._in_oblige = True
         try:
             self.assume(goal)
         except PathAbort:
             # the goal is literally false: the obligation is kept (it will be refuted), the path ends here
             raise PathDone()
+        finally:
+            self._in_oblige = False
 
     def effect(self, kind, *data):
         self.effects.append((kind,) + data)
